@@ -12,6 +12,7 @@ def handle (req : Json) : R Json := do
   let r1 ← parseGVal (← jget a "root")
   let h2 ← (← jlist (← jget b "objs")).mapM parseObj
   let r2 ← parseGVal (← jget b "root")
+  if !(Heap.eqWFB h1 && Heap.eqWFB h2) then throw "heap not well-formed for == (EqWF)"
   return mkObj [("eq", .bool (buildableEq h1 h2 r1 r2)), ("eq_rev", .bool (buildableEq h2 h1 r2 r1))]
 
 end Driver.Eq
